@@ -45,6 +45,8 @@ func classValue(r *Rng, class int) float32 {
 		return float32(r.Norm()) * 1e25
 	case 5: // mixed signs, integers (exact arithmetic)
 		return float32(r.Intn(41) - 20)
+	case 6: // small but far inside float32's range: squares ~1e-6, products of norms ~1e-9
+		return float32(r.Norm()) * 1e-3
 	}
 	return float32(r.Norm())
 }
@@ -132,7 +134,7 @@ func runSimd(c *Ctx) {
 			continue
 		}
 		for rep := 0; rep < reps; rep++ {
-			class := rng.Intn(6)
+			class := rng.Intn(7)
 			offA, offB := rng.Intn(8), rng.Intn(8)
 			bufA := make([]float32, n+16)
 			bufB := make([]float32, n+16)
@@ -187,7 +189,7 @@ func runSimd(c *Ctx) {
 				// classes where float32 obeys the standard model (nothing overflows or underflows). S is
 				// computed in float64 (its own error, n * 2^-53, is far below the bound); for the Euclidean
 				// distance the wrapper's square root and the squaring back cost three more roundings.
-				if k < 2 && (class == 0 || class == 5) {
+				if k < 2 && (class == 0 || class == 5 || class == 6) {
 					var S float64
 					for i := 0; i < n; i++ {
 						d := float64(a[i]) - float64(b[i])
@@ -209,6 +211,23 @@ func runSimd(c *Ctx) {
 						}
 					}
 					boundChecks++
+				}
+				// cosine against a float64 computation of the formula, where float32 is comfortable (an
+				// implementation-independent reference: all three implementations could be wrong together)
+				if k == 2 && (class == 0 || class == 6) {
+					var dot, na, nb float64
+					for i := 0; i < n; i++ {
+						x, y := float64(a[i]), float64(b[i])
+						dot, na, nb = dot+x*y, na+x*x, nb+y*y
+					}
+					if na > 0 && nb > 0 {
+						ref := 1 - dot/math.Sqrt(na*nb)
+						for which, r := range []float32{ra, rn} {
+							if math.IsNaN(float64(r)) || math.Abs(float64(r)-ref) > 1e-4+float64(n)*math.Pow(2, -21) {
+								c.Violate("C15", "C15/cosine-differs-from-reference", fmt.Sprintf("cosine n=%d class %d: %s returns %v, 1 - a.b/(|a||b|) computed in float64 is %v", n, class, []string{"AVX", "the portable kernel"}[which], r, ref), desc)
+							}
+						}
+					}
 				}
 				// symmetry, non-negativity, zero on self (through the Space wrapper for cosine's Abs)
 				if rs := call(avx, k, b, a); math.Float32bits(rs) != math.Float32bits(ra) && !(math.IsNaN(float64(rs)) && math.IsNaN(float64(ra))) {
